@@ -321,7 +321,16 @@ fn capability(rng: &mut Rng) -> Capability<'static> {
         0 => Capability::Imap4rev1,
         1 => Capability::Auth(Cow::Owned(atom(rng))),
         _ => loop {
-            let a = if rng.chance(1, 4) { format!("IMAP4rev1{}", atom(rng)) } else if rng.chance(1, 6) { "AUTH=".into() } else { atom(rng) };
+            // near misses of the two special spellings stay ordinary atoms
+            let a = if rng.chance(1, 4) {
+                format!("IMAP4rev1{}", atom(rng))
+            } else if rng.chance(1, 4) {
+                rng.pick(&["IMAP4rev2", "IMAP4REV2", "IMAP4rev", "IMAP4", "IMAP4rev11", "MAP4rev1", "IMAP4rev0", "AUTH", "AUTH-PLAIN", "AUTHX=Y", "XAUTH=PLAIN", "LITERAL+", "LOGINDISABLED"]).to_string()
+            } else if rng.chance(1, 6) {
+                "AUTH=".into()
+            } else {
+                atom(rng)
+            };
             if !a.eq_ignore_ascii_case("IMAP4rev1") && !(a.len() > 5 && a.as_bytes()[..5].eq_ignore_ascii_case(b"AUTH=")) {
                 return Capability::Atom(Cow::Owned(a));
             }
